@@ -431,6 +431,7 @@ theorem step_grow (s : State) (op : Op) : Grow s (step s op).1 := by
       apply map_fields_hs
       intro x; split <;> rfl
     · exact (Same.rfl' s).grow
+  | foreign kind e => simp only [step]; split <;> exact (Same.rfl' s).grow
 
 theorem step_HInv (s : State) (op : Op) (h : HInv s) : HInv (step s op).1 := by
   obtain ⟨hn, hb⟩ := h
@@ -690,6 +691,7 @@ theorem step_Inv (s : State) (op : Op) (h : DocInv s) (hok : OpOk s op) : DocInv
       exact (hi.sub (by simp [keys, List.map_map, Function.comp_def]) (allH_mapFilter_sublist _ _)).mono
         (by simpa using hle) (fun x hx => hx)
     · exact hi
+  | foreign kind e => simp only [step]; split <;> exact hi
 
 /-- at every step of any history: every entity is in at most one layout, at most once; handles are
     unique and never reused -/
@@ -754,7 +756,7 @@ theorem spec_add (s : State) (k h seed : Nat) (sp : List Nat) (hsp : spaceOf s k
     content (step s (.add k h seed)).1 k = content s k ++ [h] ∧
     ∀ k', k' ≠ k → content (step s (.add k h seed)).1 k' = content s k' := by
   obtain ⟨s', hs'⟩ : ∃ s', s' = (step s (.add k h seed)).1 := ⟨_, rfl⟩
-  have hE : s'.ents = s.ents ++ [⟨h, true, some k, true, none⟩] := by
+  have hE : s'.ents = s.ents ++ [⟨h, true, some k, true, none, isPaperBr s k⟩] := by
     simp [hs', step, newEnt, hsp, hf]
   have hS : s'.spaces = setSpace s.spaces k (· ++ [h]) := by
     simp [hs', step, newEnt, hsp, hf]
